@@ -109,7 +109,7 @@ class Puddle:
 
     def _filter_by_boundary_condition(self, utterance, i, j):
         # previous must be word-end
-        prev_biphone = ''.join(utterance[i - self.window:i])
+        prev_biphone = ''.join(utterance[max(0, i - self.window):i])
         if i != 0 and prev_biphone not in self._ending:
             return False
 
@@ -132,14 +132,15 @@ class Puddle:
 
         if len(utterance[i:j+1]) >= 2:
             self._beginning.update([''.join(utterance[i:i+self.window])])
-            self._ending.update([''.join(utterance[j+1-self.window:j+1])])
+            self._ending.update(
+                [''.join(utterance[max(0, j+1-self.window):j+1])])
 
             self._log.debug(
                 'biphones %s added in beginning',
                 ''.join(utterance[i:i+self.window]))
             self._log.debug(
                 'biphones %s added in ending',
-                ''.join(utterance[j+1-self.window:j+1]))
+                ''.join(utterance[max(0, j+1-self.window):j+1]))
 
         return segmented
 
